@@ -969,6 +969,9 @@ func (s *State) evalIfExpression(ie *ast.IfExpression) object.Object {
 		}
 		return s.evalInternal(ie.Alternative)
 	default:
+		if condition.Type() == object.ERROR {
+			return condition // the error itself, like for operands (and not its text wrapped again at each nesting).
+		}
 		return s.NewError("condition is not a boolean: " + condition.Inspect())
 	}
 }
